@@ -10,9 +10,10 @@ argv.  When that holds, the stricter reading is also checked with a real shell: 
 (empty cwd, empty PATH) must hand dumpargv exactly the executed arguments.
 The check is relative to whatever argv pydra executes, so it is independent of C22/C23 defects;
 cases whose command cannot be built at all (C23's retokenise failures) give nothing to compare -> MAY.
-Mechanism classifier: `cmdline-underquoted` = some executed argument is empty or contains a
-character that needs quoting/escaping beyond wrapping space-containing arguments in '...'
-(quote, backslash, tab, newline; for the real-shell oracle also $ * ; and other metacharacters).
+Mechanism classifier: `cmdline-underquoted` = the displayed line is exactly the executed arguments
+joined by blanks with only the space-containing ones wrapped in '...', and some executed argument
+is empty or contains a character that needs more than that (quote, backslash, tab, newline; for the
+real-shell oracle also $ * ; and other metacharacters).  Any other rendering is a new violation.
 """
 from __future__ import annotations
 
@@ -53,7 +54,8 @@ def run_one(case, d, tag):
     except ValueError as e:
         back = f"ValueError: {e}"
     if back != argv:
-        mech = "cmdline-underquoted" if any(G.needs_more_than_space_quoting(a) for a in argv) else None
+        mech = "cmdline-underquoted" if (cl == space_only_rendering(argv) and
+                                         any(G.needs_more_than_space_quoting(a) for a in argv)) else None
         return dict(r, verdict="violated", mech=mech,
                     witness={"cmdline": cl, "executed": argv, "posix_split_of_cmdline": back, "oracle": "shlex"})
     r["counters"]["shlex_roundtrips"] = 1
@@ -62,10 +64,15 @@ def run_one(case, d, tag):
     got = G.sh_split(cl, str(shd))
     r["counters"]["real_shell_runs"] = 1
     if got != args:
-        mech = "cmdline-underquoted" if any(G.needs_more_than_space_quoting(a, shell=True) for a in argv) else None
+        mech = "cmdline-underquoted" if (cl == space_only_rendering(argv) and
+                                         any(G.needs_more_than_space_quoting(a, shell=True) for a in argv)) else None
         return dict(r, verdict="violated", mech=mech,
                     witness={"cmdline": cl, "executed": argv, "argv_via_sh": got, "oracle": "/bin/sh -c"})
     return dict(r, verdict="held")
+
+
+def space_only_rendering(argv):
+    return " ".join(("'" + a + "'") if " " in a else a for a in argv)
 
 
 def arg_class(a):
@@ -96,14 +103,14 @@ def case_batch(batch, wctx):
 
 def run(ctx):
     quick = ctx.tier == "quick"
-    n = 320 if quick else 20000
-    per = 20 if quick else 300
+    n = G.QUICK_N.get(ctx.prop, 240) if quick else 20000
+    per = 15 if quick else 300
     ctx.rule = ("C22-style definitions (1-4 fields) x C23 strings in values, file names and list append_args, plus "
                 "'' arguments; cmdline and executed argv taken from the same task instance; non-trivial = the "
                 "executed argv has an argument that is empty or has a character outside [A-Za-z0-9_@%+=:,./-]; "
                 "distinct = distinct case spec")
     cases = [{"lo": i, "hi": min(n, i + per)} for i in range(0, n, per)]
-    ctx.record_all(ctx.pmap("vp.props.c24:case_batch", cases, nproc=G.NPROC, timeout=150 if quick else 2400))
+    ctx.record_all(ctx.pmap("vp.props.c24:case_batch", cases, nproc=G.NPROC, timeout=300 if quick else 2400))
     ctx.assumptions = ["POSIX splitting = shlex.split(posix=True); additionally /bin/sh -c on round-tripping cases",
                        "tasks without output path templates (cmdline is documented as relative to the cwd)"]
 
